@@ -11,6 +11,7 @@ import threading
 import types
 
 from . import canon as C
+from . import lockseam
 from . import ops as O
 
 INF = 1 << 62
@@ -227,7 +228,7 @@ def _harness_fn(req):
 # --------------------------------------------------------------------------
 class Task:
     __slots__ = ("idx", "ops", "gate", "cnt", "trig", "tp", "done", "cur_op",
-                 "rlimit", "faulted", "thread", "injected")
+                 "rlimit", "faulted", "thread", "injected", "blocked_on", "deadlocked")
 
     def __init__(self, idx, ops):
         self.idx = idx
@@ -243,6 +244,8 @@ class Task:
         self.faulted = False
         self.injected = None
         self.thread = None
+        self.blocked_on = None
+        self.deadlocked = False
 
 
 class Sim:
@@ -332,9 +335,42 @@ class Sim:
         n = len(self.tasks)
         for d in range(n):
             t = self.tasks[(to + d) % n]
-            if not t.done and t is not me:
+            if not t.done and t is not me and t.blocked_on is None:
                 return t
         return None
+
+    # -- cooperative locks (lockseam) ----------------------------------------
+    def lock_block(self, me, lock):
+        """called by a task whose acquire of a py_ecc-created lock is contended"""
+        self.stats["lock_blocks"] += 1
+        me.blocked_on = lock
+        target = self.pick(me.idx + 1, me)
+        self.rec("lock-block", me.idx, me.cur_op)
+        if target is None:
+            me.blocked_on = None
+            me.faulted = True
+            self.rec("deadlock", me.idx, me.cur_op)
+            self.probes["deadlock"] = self.probes.get("deadlock", 0) + 1
+            raise lockseam.SimDeadlock("every other caller is finished or blocked")
+        mid = me.cur_op is not None
+        if mid:
+            self.suspended_mid_op += 1
+        saved = me.cnt[1]
+        me.cnt[1] = INF
+        self.hand_over(me, target, True)
+        me.cnt[1] = saved
+        if mid:
+            self.suspended_mid_op -= 1
+        if me.deadlocked:
+            me.deadlocked = False
+            me.blocked_on = None
+            me.faulted = True
+            raise lockseam.SimDeadlock("lock owner finished without releasing")
+
+    def lock_released(self, lock):
+        for t in self.tasks:
+            if t.blocked_on is lock:
+                t.blocked_on = None
 
     def hand_over(self, me, target, park):
         global CNT
@@ -520,7 +556,14 @@ class Sim:
         nxt = self.pick(me.idx + 1, me)
         self.rec("done", me.idx)
         if nxt is None:
-            self.main_gate.release()
+            stuck = [t for t in self.tasks if not t.done and t.blocked_on is not None]
+            if stuck:
+                stuck[0].deadlocked = True
+                self.rec("deadlock", stuck[0].idx, stuck[0].cur_op)
+                self.probes["deadlock"] = self.probes.get("deadlock", 0) + 1
+                self.hand_over(me, stuck[0], False)
+            else:
+                self.main_gate.release()
         else:
             self.hand_over(me, nxt, False)
 
@@ -537,7 +580,8 @@ class Sim:
         if knobs.get("recursion_limit_after_import"):
             sys.setrecursionlimit(int(knobs["recursion_limit_after_import"]))
         self.base_rlimit = sys.getrecursionlimit()
-        install_monitor(self.slow)
+        lockseam.SIM = self
+        install_monitor(self.slow, global_mode=(spec.get("monitor") == "global"))
         self.interp0 = C.interp_state()
         threading.stack_size(64 * 1024 * 1024)
         prelude = spec.get("prelude") or []
